@@ -527,12 +527,12 @@ def h_stream_run(prop, case, facts, kind="dfa", t=3, timeout=1500):
                    functions=["Automaton::try_stream_find_iter", "StreamChunkIter::new", "StreamFindIter::next", "Buffer::new"] + F_STREAM + F_KIND[kind])
 
 
-def h_stream_replace(prop, case, facts, kind="dfa", t=3, wfault=False, timeout=1800):
+def h_stream_replace(prop, case, facts, kind="dfa", t=3, wfault=False, timeout=1800, spare=1):
     w = 2 * t + 2
-    name = "h_srepl_%s_%s_t%d_wf%d" % (case.name, kind, t, int(wfault))
-    body = _body(case, kind, "t::stream_replace::<%s, _, %d, %d, %s>(&a)" % (case.mod, t, w, "true" if wfault else "false"))
-    meta = dict(template="stream_replace", replay_template="stream", kind=kind, T=t, cap=case.maxlen + 1, writer_fault=wfault,
-                fixed_inputs={"spare": 1, "fault": int(wfault)},
+    name = "h_srepl_%s_%s_t%d_wf%d%s" % (case.name, kind, t, int(wfault), "" if spare == 1 else "_sp%d" % spare)
+    body = _body(case, kind, "t::stream_replace::<%s, _, %d, %d, %s, %d>(&a)" % (case.mod, t, w, "true" if wfault else "false", spare))
+    meta = dict(template="stream_replace", replay_template="stream", kind=kind, T=t, cap=case.maxlen + spare, writer_fault=wfault,
+                fixed_inputs={"spare": spare, "fault": int(wfault)},
                 symbolic=["stream bytes", "size of every read()"] + (["index of the failing write() call"] if wfault else []),
                 environment_stubs=["impl Read with symbolic read sizes", "impl Write appending to a fixed array" + (", failing at a symbolic call" if wfault else "")])
     unwind = max(base_unwind(case, facts, t), case.maxlen + 3, w + 2)
@@ -540,7 +540,7 @@ def h_stream_replace(prop, case, facts, kind="dfa", t=3, wfault=False, timeout=1
     if t < 2:
         unsat.add("a replacement changes the length")
     return Harness(name, case, body, unwind, [("hay", ("bytes", t))], meta, timeout=timeout, mem_gb=24, covers_required=True, unsat_ok=unsat,
-                   unwindset=stream_unwindset(case, t, case.maxlen + 1),
+                   unwindset=stream_unwindset(case, t, case.maxlen + spare),
                    functions=["Automaton::try_stream_replace_all_with", "StreamChunkIter::new"] + F_STREAM + F_KIND[kind])
 
 
@@ -1321,6 +1321,11 @@ def _schedule(prop, tier, seed):
                     # complete driver runs: T=2 on 2-byte patterns exhausts 24 GB (measured); quick binds the
                     # driver to the chunk iterator on the single-byte-pattern case only
                     h = h_stream_replace(prop, c, facts, "dfa", t=1 if quick else 2, timeout=2400 if quick else 5400)
+                    h.mem_gb = 28
+                    hs.append(h)
+                if prop == "C08" and c is one and (not quick or __import__("os").environ.get("VERIF_PROBE_SREPL")):
+                    # a 2-byte non-match chunk ahead of a match (buffer of 3): short writes matter (seeded C08d)
+                    h = h_stream_replace(prop, c, facts, "dfa", t=3, spare=2, timeout=5400)
                     h.mem_gb = 28
                     hs.append(h)
                 if prop == "C18":
